@@ -1257,7 +1257,8 @@ fn mode_iter(args: &Args) {
         let writers = rng.range(1, 4) as usize;
         let readers = rng.range(1, 3) as usize;
         let mut cfg = gen_cfg(&mut rng, nkeys);
-        cfg.cap = if rng.chance(1, 4) { None } else { Some(2 * nkeys as u64 + WRITE_LOG_SIZE as u64) };
+        let churn_keys: u32 = *rng.pick(&[0u32, 1, 4, 16]);
+        cfg.cap = if rng.chance(1, 4) { None } else { Some(2 * nkeys as u64 + churn_keys as u64 + WRITE_LOG_SIZE as u64) };
         cfg.weigher = false;
         obj_reset();
         mmv::types::obj_track_set(false);
@@ -1311,6 +1312,36 @@ fn mode_iter(args: &Args) {
                 log
             }));
         }
+        // a churn thread inserts and invalidates a separate key range: iterations may or may not see
+        // those keys, but never twice and never a value that was invalidated or replaced by an
+        // operation that completed before the iteration began
+        let churn_handle = if churn_keys > 0 {
+            let sh2 = Arc::clone(&sh);
+            let tseed = rng.next_u64();
+            Some(std::thread::spawn(move || {
+                sched::set_tid(50);
+                let mut rng = Rng::new(tseed);
+                // (key, vid or 0 for invalidate, call, ret)
+                let mut log: Vec<(u32, u64, u64, u64)> = Vec::new();
+                for i in 0..3000u64 {
+                    let k = 10_000 + rng.below(churn_keys as u64) as u32;
+                    if rng.chance(1, 3) {
+                        let c = stamp();
+                        sh2.cache.invalidate(&TK::probe(k));
+                        log.push((k, 0, c, stamp()));
+                    } else {
+                        let vid = 77_000_000_000 + i + 1;
+                        let c = stamp();
+                        sh2.cache.insert(TK::new(k), TV::new(vid, 1));
+                        log.push((k, vid, c, stamp()));
+                    }
+                }
+                sched::set_tid(usize::MAX);
+                log
+            }))
+        } else {
+            None
+        };
         let mut rhs = Vec::new();
         for rd in 0..readers {
             let sh2 = Arc::clone(&sh);
@@ -1338,6 +1369,14 @@ fn mode_iter(args: &Args) {
                 }
             }
         }
+        let mut churn: HashMap<u32, Vec<(u64, u64, u64)>> = HashMap::new();
+        if let Some(h) = churn_handle {
+            if let Ok(log) = h.join() {
+                for (k, vid, c, rt) in log {
+                    churn.entry(k).or_default().push((vid, c, rt));
+                }
+            }
+        }
         stop.store(true, Ordering::SeqCst);
         let mut iterations = Vec::new();
         for h in rhs {
@@ -1356,6 +1395,32 @@ fn mode_iter(args: &Args) {
                 if seen.insert(*k, *v).is_some() {
                     let vv = Violation { props: vec!["C16"], sig: "iter:duplicate-key:concurrent".into(), detail: format!("an iteration yielded key {} twice", k), op_index: 0 };
                     record(&mut report, &vv, &text, &prop, &known, &mut sigs);
+                }
+            }
+            for (k, v) in items.iter().filter(|(k, _)| *k >= 10_000) {
+                report.stats.inc("churn_items_judged");
+                let ops = churn.get(k).cloned().unwrap_or_default();
+                match ops.iter().find(|o| o.0 == *v) {
+                    None => {
+                        let vv = Violation { props: vec!["C16", "C01"], sig: "iter:phantom-value:concurrent".into(), detail: format!("an iteration yielded value {} for churn key {}, which nobody wrote", v, k), op_index: 0 };
+                        record(&mut report, &vv, &text, &prop, &known, &mut sigs);
+                    }
+                    Some(w) => {
+                        if w.1 > *e {
+                            let vv = Violation { props: vec!["C16"], sig: "iter:future-value:concurrent".into(), detail: format!("an iteration yielded value {} for key {} whose insert began after the iteration ended", v, k), op_index: 0 };
+                            record(&mut report, &vv, &text, &prop, &known, &mut sigs);
+                        }
+                        if let Some(x) = ops.iter().find(|x| x.0 != w.0 && x.1 > w.2 && x.2 < *b) {
+                            let what = if x.0 == 0 { "invalidated" } else { "replaced" };
+                            let vv = Violation {
+                                props: vec!["C16", "C07"],
+                                sig: format!("iter:{}-value:concurrent", what),
+                                detail: format!("an iteration yielded value {} for key {} which had been {} by an operation that completed before the iteration began", v, k, what),
+                                op_index: 0,
+                            };
+                            record(&mut report, &vv, &text, &prop, &known, &mut sigs);
+                        }
+                    }
                 }
             }
             let mut overlapped = false;
